@@ -5,6 +5,13 @@
 (* environment contributes: clock jumps (key rotation / retirement),       *)
 (* which datagram of each exchange is lost, and requests of other clients  *)
 (* (number of cookie/placeholder fields, length of the unique identifier). *)
+(* and what the network does with the replies it has seen: an earlier      *)
+(* reply (the src-th newest one) handed to the waiting client pre times     *)
+(* before the genuine reply or the deadline, and once more (post) after the *)
+(* call has returned.  Foreign requests carry a cookie under the kb-th      *)
+(* newest key the provider holds (kb = 0: under the key handed out now).    *)
+(* `stat` counts, on the specification's side, how often a behaviour        *)
+(* exercises these dimensions (vacuity guards of the checks).               *)
 (*   Exhaustive = FALSE (tlc -simulate): one random decision per step,     *)
 (*     drawn with RandomElement and bound through singleton \E; a per-     *)
 (*     behaviour bias steers the loss rate so that every pool level 8..1   *)
@@ -15,13 +22,25 @@
 (*       bias 5     every exchange fails (pool runs empty, re-keying)      *)
 (*   Exhaustive = TRUE (breadth-first): all schedules of MaxEx exchanges.  *)
 (***************************************************************************)
-EXTENDS NtsCookies, Json
-CONSTANTS Exhaustive, Biases, TickPct, ProbePct
-VARIABLES hist, bias, plan
-gvars == <<vars, hist, bias, plan>>
+EXTENDS NtsCookies, Json, FiniteSets
+CONSTANTS Exhaustive, Biases, TickPct, ProbePct, StalePct, ExInj
+VARIABLES hist, bias, plan, stat, kex
+gvars == <<vars, hist, bias, plan, stat, kex>>
 
 Pick(S) == RandomElement(S)
 Drops == {"none", "req", "resp"}
+NoPlan == [drop |-> "none", pre |-> 0, post |-> 0, src |-> 0]
+Stat0 == [same |-> 0,     \* earlier replies of the current association handed to the waiting client ...
+          before |-> 0,   \* ... of these: while the genuine reply was on its way, which the client then got
+          dup |-> 0,      \* ... of these: replies the client had received before (else: replies that had been lost)
+          other |-> 0,    \* replies of an earlier association handed to the waiting client
+          second |-> 0,   \* deliveries that ended the call (retry already spent)
+          stray |-> 0,    \* deliveries after the call had returned
+          oldserve |-> 0, \* requests served whose cookie is sealed under a key that is not the one handed out now
+          span1 |-> 0,    \* requests served one rotation after the association's key exchange
+          span2 |-> 0,    \* ... two or more rotations after it, with a served request in between
+          had1 |-> 0,
+          oldprobe |-> 0] \* foreign requests answered whose cookie is sealed under an older key
 
 TickChoices ==
   LET avail == {d \in Ticks : now + d <= Horizon}
@@ -33,6 +52,10 @@ ProbeChoices(k) ==
   IF Exhaustive THEN {0} \cup ProbeNs
   ELSE {IF ProbeNs # {} /\ Pick(1 .. 100) <= ProbePct THEN Pick(ProbeNs) ELSE 0}
 UidChoices(k) == IF Exhaustive THEN ProbeUids ELSE {Pick(ProbeUids)}
+\* the cookie of a foreign request: 0 = fresh, j = under the j-th newest key held
+NKeys == Cardinality(DOMAIN prov.keys)
+KbChoices(k) == IF Exhaustive THEN {0, NKeys} ELSE {Pick(0 .. NKeys)}   \* (exhaustive: fresh, or under the oldest key held)
+KeyAt(j) == CHOOSE i \in DOMAIN prov.keys : Cardinality({x \in DOMAIN prov.keys : x > i}) = j - 1
 DropChoices(p) ==
   IF Exhaustive THEN Drops
   ELSE LET r == Pick(1 .. 100)
@@ -40,46 +63,96 @@ DropChoices(p) ==
        IN {IF bias = 5 THEN which
            ELSE IF bias = 4 THEN (IF p >= 2 THEN which ELSE "none")
            ELSE IF r <= 25 * bias THEN which ELSE "none"}
+\* what the network does with an earlier reply during / after this exchange: <<pre, post>>
+InjTable == << <<1, 0>>, <<1, 0>>, <<1, 0>>, <<1, 0>>, <<2, 0>>, <<0, 1>>, <<1, 1>> >>
+NOld == IF Len(old) <= MaxOld THEN Len(old) ELSE MaxOld
+InjChoices(k) ==
+  IF NOld = 0 THEN {<<0, 0>>}
+  ELSE IF Exhaustive THEN ExInj
+  ELSE {IF Pick(1 .. 100) <= StalePct THEN InjTable[Pick(1 .. Len(InjTable))] ELSE <<0, 0>>}
+SrcChoices(k) == IF NOld = 0 THEN {0} ELSE IF Exhaustive THEN {1} ELSE {Pick(1 .. NOld)}   \* (exhaustive: the newest one)
+\* the src-th newest reply to an earlier request
+NStale == Cardinality({i \in DOMAIN old : IsStale(i)})
+SrcIdx == NStale + 1 - plan.src
+SrcIdxIdle == Len(old) + 1 - plan.src - (IF Len(old) > 0 /\ old[Len(old)].ex = nex THEN 1 ELSE 0)
 
-Finished == nex = MaxEx /\ phase = "idle"
+Finished == nex = MaxEx /\ phase = "idle" /\ plan.post = 0
+
+Op(op, d, n, u, kb, pl) ==
+  [op |-> op, d |-> d, n |-> n, u |-> u, kb |-> kb, drop |-> pl.drop, pre |-> pl.pre, post |-> pl.post, src |-> pl.src]
 
 GIdle ==
   \E t \in TickChoices :
     IF t > 0
-    THEN Tick(t) /\ hist' = Append(hist, [op |-> "tick", d |-> t, n |-> 0, u |-> 0, drop |-> "none"]) /\ UNCHANGED plan
+    THEN Tick(t) /\ hist' = Append(hist, Op("tick", t, 0, 0, 0, NoPlan)) /\ UNCHANGED <<plan, stat, kex>>
     ELSE IF pool = << >>
-    THEN Rekey /\ UNCHANGED <<hist, plan>>
+    THEN Rekey /\ kex' = prov'.cur /\ stat' = [stat EXCEPT !.had1 = 0] /\ UNCHANGED <<hist, plan>>
     ELSE \E pr \in ProbeChoices(nex) :
       IF pr > 0
-      THEN \E u \in UidChoices(nex) :
-             Probe(pr, u) /\ hist' = Append(hist, [op |-> "probe", d |-> 0, n |-> pr, u |-> u, drop |-> "none"]) /\ UNCHANGED plan
-      ELSE \E dr \in DropChoices(Len(pool)) :
+      THEN \E u \in UidChoices(nex), kb \in KbChoices(nex) :
+             /\ Probe(pr, u, IF kb = 0 THEN 0 ELSE KeyAt(kb))
+             /\ hist' = Append(hist, Op("probe", 0, pr, u, kb, NoPlan))
+             /\ stat' = [stat EXCEPT !.oldprobe = @ + (IF rep'.k = "probe" /\ rep'.ck # prov'.cur THEN 1 ELSE 0)]
+             /\ UNCHANGED <<plan, kex>>
+      ELSE \E dr \in DropChoices(Len(pool)), inj \in InjChoices(nex), sr \in SrcChoices(nex) :
              /\ SendRequest
-             /\ plan' = dr
-             /\ hist' = Append(hist, [op |-> "x", d |-> 0, n |-> 0, u |-> 0, drop |-> dr])
+             /\ plan' = [drop |-> dr, pre |-> inj[1], post |-> inj[2], src |-> IF inj = <<0, 0>> THEN 0 ELSE sr]
+             /\ hist' = Append(hist, Op("x", 0, 0, 0, 0, plan'))
+             /\ UNCHANGED <<stat, kex>>
+
+GServe ==
+  /\ ServerHandle
+  /\ stat' = IF obs' # "serve" THEN stat
+             ELSE LET sp == prov'.cur - kex IN
+                  [stat EXCEPT !.oldserve = @ + (IF net.cookie.key # prov'.cur THEN 1 ELSE 0),
+                               !.span1 = @ + (IF sp = 1 THEN 1 ELSE 0),
+                               !.span2 = @ + (IF sp >= 2 /\ stat.had1 = 1 THEN 1 ELSE 0),
+                               !.had1 = IF sp = 1 THEN 1 ELSE @]
+
+GReplay ==
+  /\ Replay(SrcIdx)
+  /\ plan' = [plan EXCEPT !.pre = @ - 1]
+  /\ LET o == old[SrcIdx]
+         sm == o.sess = sess
+         rc == Len(o.cookies) > 0 /\ (o.cookies[1].id \in used \/ o.cookies[1].id \in Ids(pool))
+     IN stat' = [stat EXCEPT !.same = @ + (IF sm THEN 1 ELSE 0),
+                             !.before = @ + (IF sm /\ tries = 0 /\ phase = "resp" /\ plan.drop = "none" /\ plan.pre = 1 THEN 1 ELSE 0),
+                             !.dup = @ + (IF sm /\ rc THEN 1 ELSE 0),
+                             !.other = @ + (IF sm THEN 0 ELSE 1),
+                             !.second = @ + (IF obs' = "fail" THEN 1 ELSE 0)]
 
 GNext ==
   /\ ~Finished
   /\ UNCHANGED bias
-  /\ \/ phase = "idle" /\ GIdle
-     \/ phase = "req"  /\ (IF plan = "req" THEN LoseRequest ELSE ServerHandle) /\ UNCHANGED <<hist, plan>>
-     \/ phase = "resp" /\ (IF plan = "resp" THEN LoseResponse ELSE ClientReceive) /\ UNCHANGED <<hist, plan>>
-     \/ phase = "wait" /\ Timeout /\ UNCHANGED <<hist, plan>>
+  /\ \/ phase = "idle" /\ plan.post = 0 /\ GIdle
+     \/ /\ phase = "idle" /\ plan.post > 0
+        /\ Stray(SrcIdxIdle) /\ plan' = [plan EXCEPT !.post = 0]
+        /\ stat' = [stat EXCEPT !.stray = @ + 1] /\ UNCHANGED <<hist, kex>>
+     \/ phase = "req"  /\ (IF plan.drop = "req" THEN LoseRequest /\ UNCHANGED stat ELSE GServe) /\ UNCHANGED <<hist, plan, kex>>
+     \/ phase \in {"resp", "wait"} /\ plan.pre > 0 /\ GReplay /\ UNCHANGED <<hist, kex>>
+     \/ phase = "resp" /\ plan.pre = 0 /\ (IF plan.drop = "resp" THEN LoseResponse ELSE ClientReceive) /\ UNCHANGED <<hist, plan, stat, kex>>
+     \/ phase = "wait" /\ plan.pre = 0 /\ Timeout /\ UNCHANGED <<hist, plan, stat, kex>>
 
-HInit == Init /\ hist = << >> /\ plan = "none" /\ bias \in Biases
+HInit == Init /\ hist = << >> /\ plan = NoPlan /\ bias \in Biases /\ stat = Stat0 /\ kex = 0
 HSpec == HInit /\ [][GNext]_gvars
 
 \* every generated step is a step of the specification
 StepOfSpec == [][Next]_vars
 
-Emit == Finished => PrintT(<<"CASE", ToJson([bias |-> bias, ops |-> hist])>>)
+Emit == Finished => PrintT(<<"CASE", ToJson([bias |-> bias, ops |-> hist, stat |-> stat])>>)
 BiasAll  == 0 .. 5
 BiasOne  == {0}
+BiasLow  == {0, 1}
 GTicks   == {1, 2, 3, 5, 6}
 GTicksX  == {6}
+GTicksRot == {1, 2, 3}      \* (rotation-heavy walks for C12: no jump retires every key at once)
+GProbesRot == {1, 2, 8}
+GUidsRot == {32, 64}
 GProbes  == {1, 2, 5, 7, 8, 9, 10, 12}
 GProbesX == {8}
 GUids    == {32, 36, 64, 160, 200, 300, 320}
 GUidsX   == {200}
 NoProbes == {}
+InjNone  == {<<0, 0>>}
+InjX     == {<<0, 0>>, <<1, 0>>}
 =============================================================================
